@@ -141,7 +141,7 @@ def parse_sidecars(directory):
                                 for k in call.keywords:
                                     c.native[k.arg] = k.value
                             elif n == 'known':
-                                c.known.append(call)
+                                c.known.append((ast.literal_eval(call.args[0]), call.args[1]))
                             elif n == 'refines':
                                 c.refines.append(ast.literal_eval(call.args[0]))
                             elif n == 'use_abstract':
@@ -265,7 +265,7 @@ def resolve_target(mod, qualname):
     return obj
 
 
-def check_call(contract, mod, genv, args, ghosts=None, time_limit=5):
+def check_call(contract, mod, genv, args, ghosts=None, time_limit=5, ignore_known=False):
     """Run the real function on `args` (dict name->value, incl. self) and evaluate the contract.
     returns (status, detail); status in ok | skipped | violated"""
     fn = resolve_target(mod, contract.qualname)
@@ -287,6 +287,13 @@ def check_call(contract, mod, genv, args, ghosts=None, time_limit=5):
                 return 'skipped', 'requires false'
     except Exception as e:
         return 'skipped', 'requires raised %r' % (e,)
+    if not ignore_known:
+        for kid, region in contract.known:
+            try:
+                if ev(region, g, env):
+                    return 'skipped', 'inside the region of known finding %s' % kid
+            except Exception:
+                pass
     pre_env = copy.deepcopy(env)
     order = [p for p in contract.param_order if p in args]
     import inspect
@@ -692,7 +699,7 @@ def replay(repo_root, contracts_dir, ident, inputs_json, ghosts_json=None, time_
     args = {k: from_json(v) for k, v in inputs_json.items()}
     ghosts = {k: from_json(v) for k, v in (ghosts_json or {}).items()}
     genv = {'implies': lambda a, b: (not a) or b}
-    st, detail = check_call(c, mod, genv, args, ghosts, time_limit)
+    st, detail = check_call(c, mod, genv, args, ghosts, time_limit, ignore_known=True)
     return {'status': st, 'detail': detail}
 
 
